@@ -450,7 +450,11 @@ class InvariantMonitor(Monitor):
                 part = any(any(p._satisfied.values()) for p in unsat)
                 if unsat and part:
                     bad.append((i.identity, 'partially satisfied within stop point'))
-        if bad and not schd.pool.stop_task_id and schd.stop_clock_time is None:
+        recent = [m for _, m in self.h.log.records[-6:]]
+        by_stop_task = any(m.startswith('Stop task ') or
+                           m.startswith('Wall clock stop time reached')
+                           for m in recent)
+        if bad and not by_stop_task:
             self.v('C03', 'premature_auto_shutdown', {'pool': bad[:10]})
         return None
 
